@@ -90,6 +90,27 @@ func runC01Labels(c *Ctx) {
 			}
 		}
 	}
+	// … or a method / function introduced since the baseline that took the closure's place:
+	// it stores into ….origin.inSet and takes the operand as its last parameter
+	edgeIsMethod := false
+	if edgeClo == nil {
+		for _, g := range c.P.Funcs {
+			if pkgOf(g) != "geom" || g.Parent() != nil || !isNewHelper(g) || len(g.Params) != 2 || namedName(g.Params[1].Type()) != "operand" {
+				continue
+			}
+			isEdge := false
+			eachInstr(g, func(in ssa.Instruction) {
+				if fa, ok := in.(*ssa.FieldAddr); ok {
+					if _, fl := fieldOfAddr(fa); fl == "origin" {
+						isEdge = true
+					}
+				}
+			})
+			if isEdge {
+				edgeClo, edgeIsMethod = g, true
+			}
+		}
+	}
 	if edgeClo == nil {
 		c.Errorf("anchor populateInSetLabels edge closure does not resolve")
 	} else {
@@ -107,7 +128,12 @@ func runC01Labels(c *Ctx) {
 				models++
 				m.Missing = map[string]bool{}
 				it := &k4interp{p: c.P, m: m, mem: map[string]k4val{}}
-				_, err := it.call(edgeClo, []k4val{{kind: 2, f: float64(op)}}, []k4val{{kind: 3, s: e}})
+				var err error
+				if edgeIsMethod {
+					_, err = it.call(edgeClo, []k4val{{kind: 3, s: e}, {kind: 2, f: float64(op)}}, nil)
+				} else {
+					_, err = it.call(edgeClo, []k4val{{kind: 2, f: float64(op)}}, []k4val{{kind: 3, s: e}})
+				}
 				if err != nil {
 					undec = fmt.Sprintf("%v %s", err, missingList(m))
 					return false
